@@ -158,6 +158,12 @@ def r17b(ctx: Context) -> None:
             rule.ok(ckey + ": disable wins", "enable applies only when disable left the value None")
         else:
             rule.fail(ckey + ": disable wins", where(cmd), "a rule named in both -d and -e is not disabled: enable is not conditioned on disable having been silent")
+    # the command-line decision depends on the command-line sets and the rule's identifiers, nothing else
+    param = cmd.params[1] if len(cmd.params) > 1 else "plugin_object"
+    for node in walk_local(cmd.node):
+        if isinstance(node, ast.Attribute) and isinstance(node.value, ast.Name) and node.value.id == param and node.attr not in ("plugin_identifiers", "plugin_id", "plugin_names"):
+            rule.fail(func_key(cmd) + f": reads {node.attr}", where(cmd, node), f"the command-line decision reads '{param}.{node.attr}': -e/-d no longer apply uniformly (for example -e is ignored for a rule that a configuration file turned off), so a lower layer outranks the command line")
+    rule.ok(func_key(cmd) + ": inputs", "decides from -e/-d and the rule's identifiers only")
     # every lookup goes over the rule's identifiers (id + names)
     for func in (cmd, find):
         loops = _identifier_loops(func)
